@@ -31,7 +31,8 @@ TRUSTED = [
     "synced_collections 1.0.1 and the copy/pickle protocol are modelled, not verified",
     "gzip framing of the persistent cache file: only the decoded mapping is compared",
 ]
-ASSUMPTIONS = ["copy.copy is taken after the handle's state point was accessed (the early-copy defect is C04's finding 2)",
+ASSUMPTIONS = ["after job.move() the shallow copies of the moved handle are not used for state point changes",
+               "copy.copy is taken after the handle's state point was accessed (the early-copy defect is C04's finding 2)",
                "a handle is pickled only while no shallow copy of it exists (RecursionError otherwise)",
                "values that compare == in Python but differ in type (1 / 1.0 / True) are not mixed (C04's finding 3)",
                "open_job(id=...) is only asked for ids that exist in the workspace or never existed",
@@ -104,13 +105,36 @@ def random_ops(desc, W):
         groups[h] = g
         copies[g] = copies.get(g, 0) + 1
 
-    def pick_handle():
+    dirty = set()        # handles whose in-memory state point was left modified by a failed re-key
+    orphaned = set()     # shallow copies of a handle that was moved to another project
+
+    def doc_safe(i):
+        """the handle's lazily cached document object / _directory_known agree with the disk"""
+        j = W.handles[i]
+        if os.path.isdir(j.path):
+            return (j._document is None or os.path.isfile(os.path.join(j.path, wsops.DOCF))
+                    or not j._document._data)
+        return not j._directory_known and j._document is None
+
+    def sp_safe(i):
+        """a state point change through the handle will find its lock and start from clean data"""
+        j = W.handles[i]
+        if i in dirty or i in orphaned:
+            return False
+        if j._statepoint_requires_init:
+            return True
+        return j._statepoint.filename in type(j._statepoint)._locks
+
+    def pick_handle(pred=None):
         n = len(W.handles)
         if n == 0:
             return None
-        if rng.random() < 0.7:
-            return rng.randrange(max(0, n - 4), n)
-        return rng.randrange(n)
+        cands = list(range(max(0, n - 4), n)) if rng.random() < 0.7 else list(range(n))
+        if pred is not None and rng.random() < 0.92:
+            good = [i for i in cands if pred(i)] or [i for i in range(n) if pred(i)]
+            if good:
+                return rng.choice(good)
+        return rng.choice(cands)
 
     def other_session(h):
         root = os.path.relpath(W.handles[h]._project.path, W.root)
@@ -120,7 +144,12 @@ def random_ops(desc, W):
     for _ in range(desc["len"]):
         r = rng.random()
         nh = len(W.handles)
-        h = pick_handle()
+        if 0.24 <= r < 0.40:
+            h = pick_handle(sp_safe)
+        elif 0.40 <= r < 0.63:
+            h = pick_handle(doc_safe)
+        else:
+            h = pick_handle()
         if r < 0.14 or h is None:
             before = len(W.handles)
             yield ["OpenSp", rng.randrange(len(sess_root)), typed(rand_sp(rng))]
@@ -157,6 +186,9 @@ def random_ops(desc, W):
                 if rng.random() < 0.5:
                     u[rng.choice(KEYS)] = 0
                 yield ["UpdateSp", h, typed(u), rng.random() < 0.5]
+            if W.last_out == ["exn", "EDestinationExists"]:
+                g = groups.get(h)
+                dirty.update([h] + [i for i, gg in groups.items() if gg == g and g is not None])
         elif r < 0.47:
             yield ["Remove", h]
         elif r < 0.50:
@@ -176,9 +208,12 @@ def random_ops(desc, W):
         elif r < 0.74:
             s = other_session(h)
             if s is not None:
+                g = groups.get(h)
                 yield ["Move", h, s]
-                groups.pop(h, None)
-                new_group(h)
+                if W.last_out == ["unit"]:
+                    orphaned.update(i for i, gg in groups.items() if gg == g and i != h)
+                    groups.pop(h, None)
+                    new_group(h)
         elif r < 0.79:
             s = other_session(h)
             if s is not None:
@@ -250,6 +285,7 @@ def run_case(desc):
         prev_ids = None
         for op in gen:
             out = W.run(op)
+            W.last_out = out
             snap = W.run(["Snap"])
             steps.append("(mkStep3 %s %s %s)" % (wsops.coq_op(L, op), wsops.coq_oval(L, out), wsops.coq_oval(L, snap)))
             log.append([op, out, "same" if snap[0] == "snapsame" else
